@@ -4,7 +4,7 @@ EXTENDS ModelObj
 CONSTANT Depth
 ValsM101 == {-1, 0, 1}
 Vals01 == {0, 1}
-StaleOps == {"setitem", "toenum", "refresh", "copy", "new"}
+StaleOps == {"setitem", "toenum", "refresh", "copy", "new", "setmap"}
 LitOps == {"setitem", "augadd", "imul", "bin", "mulraise", "value"}
 ValsM1012 == {-1, 0, 1, 2}
 LabelsInt == {0, 2}
